@@ -174,6 +174,6 @@ Theorem C13_source_tie :
   gen_flag_map = [("KeepPointsAndLines", "Bool:keeppointsandlines"); ("IgnoreOutsideGrid", "Bool:ignoreoutsidegrid");
                   ("ReverseWindingOrder", "Bool:reversewindingorder"); ("overwrite", "Bool:overwrite");
                   ("pagesize", "Int:pagesize")]%string /\
-  gen_suffix_format = "_%v"%string /\ gen_validate_quadtree_first = true.
+  gen_suffix_format = "_%v"%string /\ gen_inject_shape = true /\ gen_validate_quadtree_first = true.
 Proof. repeat split; reflexivity. Qed.
 Print Assumptions C13_source_tie.
